@@ -64,3 +64,31 @@ fn k_decode_short() {
     }
     kani::cover!(n == 2 && b0 == 0xD0 && b1 == 0);
 }
+
+/// C08 "non-canonical variable-length integer is rejected": a PINGRESP whose remaining length 0 is
+/// encoded non-minimally in 2, 3 or 4 bytes (`D0 80 00`, `D0 80 80 00`, `D0 80 80 80 00`), or with a
+/// fifth length byte, must be rejected — the packet reader's framing probe is lenient, so this decoder
+/// check is the only one on the fixed-header length.  (The decoder is only ever handed exactly the
+/// announced number of bytes — `take_packet` slices `buffer[..packet_length]` — so a declared length that
+/// differs from the slice is outside its precondition and deliberately not part of this contract.)
+#[cfg_attr(kani, kani::proof)]
+#[cfg_attr(kani, kani::unwind(8))]
+#[cfg_attr(verif_replay, test)]
+fn k_decode_noncanonical_len() {
+    let k: usize = kani::any();
+    kani::assume(k >= 2 && k <= 5);
+    let low: u8 = kani::any();
+    kani::assume(low == 0x80);
+    let mut buf = [0u8; 6];
+    buf[0] = 0xD0;
+    let mut i = 1;
+    while i < k {
+        buf[i] = low;
+        i += 1;
+    }
+    buf[k] = 0x00;
+    let r = ReceivedPacket::from_buffer(&buf[..1 + k]);
+    assert!(r.is_err(), "non-canonical remaining length accepted");
+    kani::cover!(k == 2);
+    kani::cover!(k == 5);
+}
